@@ -57,21 +57,93 @@ NOTES = {
  "C17/mutant1": "first reported by the theorems only; the generated databases now contain uids in one hash slot that are >= 2^31 apart and the stream gives a failing (uid, gid) query",
  "C01/mutant2": "C01 reports it only as a broken dependency (C06 theorem file); C06 gives the failing tuple",
 }
+# ---- second round (agents were told what round 1 had produced and asked for different files / kinds of mistake, subtler)
+CAUGHT2 = {
+ "C01/mutant1": [("C01", True), ("C08", True)],
+ "C01/mutant2": [("C01", True)],
+ "C02/mutant1": [("C02", True), ("C09", True)],
+ "C02/mutant2": [("C02", True)],
+ "C03/mutant1": [("C03", True)],
+ "C03/mutant2": [("C13", True), ("C01", True), ("C03", True)],
+ "C04/mutant1": [("C04", True)],
+ "C04/mutant2": [("C04", True), ("C09", True)],
+ "C05/mutant1": [("C13", True)],
+ "C05/mutant2": [("C05", True), ("C01", False)],
+ "C06/mutant1": [("C06", True)],
+ "C06/mutant2": [("C06", True), ("C13", False)],
+ "C07/mutant1": [("C07", True)],
+ "C07/mutant2": [("C07", True)],
+ "C08/mutant1": [("C19", True)],
+ "C08/mutant2": [("C08", True)],
+ "C09/mutant1": [("C09", True), ("C04", True)],
+ "C09/mutant2": [("C09", True), ("C04", True)],
+ "C09/mutant3_bonus": [("C09", True), ("C02", False)],
+ "C10/mutant1": [("C10", True), ("C08", False)],
+ "C10/mutant2": [("C10", True)],
+ "C11/mutant1": [("C11", True), ("C08", True)],
+ "C11/mutant2": [("C11", True)],
+ "C12/mutant1": [("C12", True)],
+ "C12/mutant2": [("C12", False)],
+ "C13/mutant1": [("C05", True)],
+ "C13/mutant2": [("C01", True), ("C08", True)],
+ "C14/mutant1": [("C14", True), ("C08", True)],
+ "C14/mutant2": [("C14", True)],
+ "C15/mutant1": [("C15", False)],
+ "C15/mutant2": [("C15", False)],
+ "C16/mutant1": [("C16", True)],
+ "C16/mutant2": [("C16", True)],
+ "C17/mutant1": [("C17", True), ("C04", False)],
+ "C17/mutant2": [("C17", True), ("C05", True)],
+ "C18/mutant1": [("C18", False)],
+ "C18/mutant2": [("C18", True)],
+ "C19/mutant1": [("C19", True)],
+ "C19/mutant2": [("C19", True)],
+ "C20/mutant1": [("C20", True)],
+ "C20/mutant2": [("C20", False)],
+}
+NOTES2 = {
+ "C01/mutant2": "first MISSED (no stream decoded a compressed payload from the top 21 bytes of the range); C01 now round-trips compressed and incompressible payloads at the top of the range on the real build",
+ "C02/mutant1": "first MISSED by C02 and C09: no seed credential had an inner layer that is a whole number of cipher blocks (pure-padding last block); both now mint such credentials",
+ "C02/mutant2": "first MISSED: no credential was larger than 64 kB; C02 now alters 70-200 kB credentials on the real primitives around 2^16 and in the tail",
+ "C03/mutant1": "first MISSED: the harness never ran with a mode flag set and nothing tied enc.c's configuration reads to the model; now the generated confReads table (theorem conf_fields_as_modelled) breaks, and C03's real-primitive stream also runs in benchmark mode",
+ "C03/mutant2": "in libmunge (decode.c), downstream of the DEC_RSP: reported by C13 and by C01's client-level stream; C03 now runs that client-level stream too",
+ "C04/mutant1": "first MISSED: conf.c's create_conf was never executed by a check; harness/h_conf.c now runs the real create_conf/parse_cmdline/process_conf under two heap fills",
+ "C05/mutant1": "first reported by C13 without an input (loop extraction); C13's harness now injects refused connect() calls and gives the failing call",
+ "C05/mutant2": "first reported only as a correspondence break (C01); C05 now mints groups of credentials by identical requests in one second on the real enc.c and decodes each",
+ "C06/mutant1": "first MISSED (conf.c option processing unmodelled): C06 now checks every --max-ttl in 1..3600 through the real conf.c",
+ "C06/mutant2": "first reported by C13 without an input; C06's end-to-end decodes now carry retry 0/1/5",
+ "C08/mutant1": "identical in effect to C19-m2 (decode length rounds down): C19 reports it with input; C08's own streams do not contain the two-byte remainder it needs",
+ "C08/mutant2": "made the harness hang (blocking read): h_cred now has a watchdog, the stalled-client op is reported with its input",
+ "C09/mutant3_bonus": "first reported without input (correspondence); C09 now removes / appends partial cipher blocks and demands the generic reply",
+ "C10/mutant2": "first reported as a harness build failure only (cipher_init signature): the real-primitive streams now run even when the toy build does not compile, and the python reference rejects the credential",
+ "C11/mutant1": "first MISSED (double close is invisible without descriptor reuse): h_cred now counts close() on the connection's descriptor per request; C11 and C08 report the request class",
+ "C12/mutant1": "first MISSED (job_accept's loop was only pattern-checked for its final work_fini): the loop body is now translated (Gen/Job.lean), theorem exhaustion_waits_for_backlog, and the real job_accept runs against scripted accept()/time()",
+ "C12/mutant2": "lost wake-up in work_queue: reported by the correspondence stream and the generated signal predicate; no forced schedule in the quick tier exhibits the delay (it is a performance / drain-order effect, every item is still processed)",
+ "C13/mutant1": "hash_remove comparator swapped: invisible to C13's single-credential transactions (needs a bucket collision); C05's hash streams give the failing key",
+ "C13/mutant2": "fd_timed_write_iov break/continue: needs > 400 kB messages; C01's large round trips crash under ASan / fail; C08's Fd sub-check (added afterwards) reports it from the iovec-advance kernel",
+ "C14/mutant1": "reachable only through a header whose type byte is 1 - the request class the Wire/Cred bridge proof had just forced into the model and the C08/C14 streams",
+ "C14/mutant2": "first MISSED (libmunge's handling of replies was never fed hostile replies): h_retry got the `r<hex>` fault and C14 a client-side stream through the real munge_decode/munge_encode",
+ "C15/mutant1": "shutdown/start-up race: theorem level only (lock_before_unlink, program_well_formed); no schedule is driven on the binary",
+ "C15/mutant2": "shutdown/start-up race: theorem level only (program_well_formed)",
+ "C16/mutant2": "first MISSED: nothing planted a file at the seed path before the write; theorem seed_written_fresh over the translated kernel and `seedpre` ops on the real file system",
+ "C18/mutant1": "theorem level only (services_rearm: the re-arm of the gids timer is skipped on a path); the binary is not run for a full refresh interval",
+ "C20/mutant2": "rename()-based key creation race: reported through the generated creation program (unlink/open flags) only; the race itself is not driven",
+}
 confirm = {}
-for f in ("/tmp/wt/confirm.log", "/tmp/wt/confirm2.log", "/tmp/wt/confirm3.log", "/tmp/wt/confirm4.log"):
-    if os.path.exists(f):
-        for l in open(f):
-            m = re.match(r"/tmp/wt/out_(\S+): (suite .*)", l)
-            if m:
-                confirm[m.group(1)] = m.group(2).strip()
+import glob
+for f in sorted(glob.glob("/tmp/wt/confirm*.log")):
+    for l in open(f):
+        m = re.match(r"/tmp/wt/(out2?)_(\S+): (suite .*)", l)
+        if m:
+            confirm[(m.group(1), m.group(2))] = m.group(3).strip()
 V = os.path.dirname(os.path.dirname(os.path.abspath(__file__)))
 n = 0
-for key, caught in sorted(CAUGHT.items()):
-    src = "/tmp/wt/out_" + key
+for rnd, key, caught in [("out", k, c) for k, c in sorted(CAUGHT.items())] + [("out2", k, c) for k, c in sorted(CAUGHT2.items())]:
+    src = "/tmp/wt/%s_%s" % (rnd, key)
     if not os.path.isdir(src):
         continue
     prop, mname = key.split("/")
-    dst = os.path.join(V, "seeded", "%s-%s" % (prop, mname.replace("extra_", "").replace("mutant", "m")))
+    dst = os.path.join(V, "seeded", "%s-%s%s" % (prop, "r2" if rnd == "out2" else "", mname.replace("extra_", "").replace("_bonus", "").replace("mutant", "m")))
     os.makedirs(dst, exist_ok=True)
     for fn in os.listdir(src):
         if fn.endswith(".log") and os.path.getsize(os.path.join(src, fn)) > 200000:
@@ -82,11 +154,12 @@ for key, caught in sorted(CAUGHT.items()):
     meta = {"property_broken": prop, "origin": "independent sub-agent given only the property text and a scratch worktree",
             "summary": title[:300],
             "needs_to_manifest": "see README.md (section on what is needed to manifest)",
-            "confirmed_by_me": confirm.get(key, "pending"),
+            "round": 2 if rnd == "out2" else 1,
+            "confirmed_by_me": confirm.get((rnd, key), "pending"),
             "what_i_ran": ["tools/seedconfirm.sh <dir>  (scratch worktree: demo on clean tree, git apply, make, make check, demo with the change)",
                            "tools/seedcheck.sh <Cxx> <dir> [other checks]  (scratch worktree with the change, MUNGE_REPO=<worktree> ./check Cxx)"],
             "caught_by": [{"check": c, "failing_input_found": fi} for c, fi in caught],
-            "note": NOTES.get(key, "")}
+            "note": (NOTES2 if rnd == "out2" else NOTES).get(key, "")}
     json.dump(meta, open(os.path.join(dst, "meta.json"), "w"), indent=1)
     n += 1
 print("assembled", n)
